@@ -52,6 +52,11 @@ Theorem C05_basket_rc : forall b, basket_rc b = map rc b /\ length (basket_rc b)
 Proof. exact basket_rc_spec. Qed.
 Print Assumptions C05_basket_rc.
 
+(* the harness evaluates rc on very long inputs with a linear-time reverse; it is the same function *)
+Theorem C05_lin_eval : forall op s, run_C05_lin op s = run_C05 op s.
+Proof. exact run_C05_lin_eq. Qed.
+Print Assumptions C05_lin_eval.
+
 (* non-vacuity: a string meeting the hypotheses, with ambiguity codes and gaps *)
 Example C05_witness : forallb in_alpha (bs "ACGTRYSWKMBDHVN.-"%bs) = true /\
   Bstr (rc (bs "ACGTRYKMBDHVN.-"%bs)) = "-.NBDHVKMRYACGT"%bs.
